@@ -2,11 +2,13 @@ package main
 
 import (
 	"fmt"
+	"os/exec"
 	"reflect"
 	"regexp"
 	"runtime/debug"
 	"sort"
 	"strings"
+	"syscall"
 
 	evalfilter "github.com/skx/evalfilter/v2"
 	"github.com/skx/evalfilter/v2/object"
@@ -46,8 +48,8 @@ type Stats struct {
 func newStats() *Stats {
 	return &Stats{Faults: map[string]int64{}, Probes: map[string]int64{}, Max: map[string]int64{}}
 }
-func (s *Stats) fault(k string)        { s.Faults[k]++ }
-func (s *Stats) probe(k string)        { s.Probes[k]++ }
+func (s *Stats) fault(k string)           { s.Faults[k]++ }
+func (s *Stats) probe(k string)           { s.Probes[k]++ }
 func (s *Stats) probeN(k string, n int64) { s.Probes[k] += n }
 func (s *Stats) max(k string, v int64) {
 	if v > s.Max[k] {
@@ -74,16 +76,16 @@ type sentinel struct{ what string }
 
 // Host is the simulated host application of one evaluator.
 type Host struct {
-	Trace   []string
-	Ctx     *verifsim.SimContext
-	Maybe   []bool
-	nMaybe  int
-	BoomAt  int // boom() call number that panics (1-based), 0 = never
-	nBoom   int
-	NilAt   int // hnil() call number that returns a nil object, 0 = never
-	nNil    int
-	Calls   int
-	Fired   map[string]int
+	Trace  []string
+	Ctx    *verifsim.SimContext
+	Maybe  []bool
+	nMaybe int
+	BoomAt int // boom() call number that panics (1-based), 0 = never
+	nBoom  int
+	NilAt  int // hnil() call number that returns a nil object, 0 = never
+	nNil   int
+	Calls  int
+	Fired  map[string]int
 	// C09 runaway protection
 	CallsAfterCancel int
 	Runaway          bool
@@ -188,6 +190,21 @@ func (h *Host) install(e *evalfilter.Eval) {
 			h.Fired["host-panic"]++
 			panic("boom from host function")
 		}
+		return &object.Integer{Value: 1}
+	})
+	e.AddFunction("hv2", func(args []object.Object) object.Object {
+		h.enter("hv2", args)
+		if len(args) > 0 {
+			return args[0]
+		}
+		return &object.Null{}
+	})
+	e.AddFunction("emit", func(args []object.Object) object.Object {
+		h.enter("emit", args)
+		return &object.Void{}
+	})
+	e.AddFunction("hf", func(args []object.Object) object.Object {
+		h.enter("hf", args)
 		return &object.Integer{Value: 1}
 	})
 	e.AddFunction("hnil", func(args []object.Object) object.Object {
@@ -372,7 +389,9 @@ func dumpSections(text string) (main, consts, funcs string) {
 // Values: deep copy preserving aliasing, snapshots.
 // ---------------------------------------------------------------------
 
-type copier struct{ seen map[object.Object]object.Object }
+type copier struct {
+	seen map[object.Object]object.Object
+}
 
 func (cp *copier) copy(o object.Object) object.Object {
 	if o == nil {
@@ -427,9 +446,22 @@ type Snapshot struct {
 func takeSnapshot(e *evalfilter.Eval, names []string) Snapshot {
 	cp := &copier{seen: map[object.Object]object.Object{}}
 	s := Snapshot{}
+	// a variable that exists with a null value still shadows a field of the
+	// object: tell it from a variable that does not exist (GetVariable cannot)
+	exists := map[string]bool{}
+	known := false
+	if gl, ok := e.VerifGlobalNames(); ok {
+		known = true
+		for _, n := range gl {
+			exists[n] = true
+		}
+	}
 	for _, n := range names {
 		v := e.GetVariable(n)
-		if v == nil || v.Type() == object.NULL {
+		if v == nil {
+			continue
+		}
+		if v.Type() == object.NULL && !(known && exists[n]) {
 			continue
 		}
 		s.Names = append(s.Names, n)
@@ -473,6 +505,72 @@ type Obj struct {
 	M       map[string]interface{}
 	F       float64
 	T       bool
+}
+
+// scriptPool is every hand-written script of every property's corpus that
+// ends by itself: what one property's workload needs, the others' oracles get
+// to see as well.
+var scriptPoolCache []string
+
+func scriptPool() []string {
+	if scriptPoolCache != nil {
+		return scriptPoolCache
+	}
+	var out []string
+	for _, s := range c07Corpus {
+		// (the deep-recursion and deep-map scripts cost tens of thousands of
+		// instructions per run: they stay in C07's own enumeration)
+		if !strings.Contains(s, "deep(") && !strings.Contains(s, "down(") && !strings.Contains(s, "string(M)") {
+			out = append(out, s)
+		}
+	}
+	out = append(out, c19Corpus...)
+	out = append(out, c20DrvScripts...)
+	out = append(out, c08FieldScripts...)
+	for _, f := range c11Families {
+		out = append(out, f.script("", 3), "zz = 1 / (C + 1); "+f.script("(?:Z7){0}", 8))
+	}
+	for _, s := range c09Catalogue() {
+		if strings.HasPrefix(s.Family, "term-") {
+			out = append(out, s.Text)
+		}
+	}
+	for i, b := range c08Builtins {
+		out = append(out, fmt.Sprintf("x = %s(%s); hv(x); return x;", b, c08BuiltinArgs[(i*5)%len(c08BuiltinArgs)]))
+	}
+	for _, e := range c08LexEdges {
+		if strings.Contains(e, ";") {
+			out = append(out, e)
+		}
+	}
+	scriptPoolCache = out
+	return out
+}
+
+var oddObjectsCache []oddObj
+
+// objectPool is every kind of host object any property's workload uses.
+func objectPool(c *verifsim.Chooser) (interface{}, string) {
+	switch c.Intn(4) {
+	case 0:
+		if oddObjectsCache == nil {
+			oddObjectsCache = oddObjects() // (the engine only reads host objects)
+		}
+		objs := oddObjectsCache
+		o := objs[c.Intn(len(objs))]
+		if strings.Contains(o.name, "deep") {
+			return nil, "nil"
+		}
+		return o.v, "odd:" + o.name
+	case 1:
+		mk, d := c19Object(c)
+		return mk(), "c19:" + d
+	case 2:
+		i := c.Intn(len(c07Objs) - 3) // (not the three with very deep maps)
+		return c07Objs[i], fmt.Sprintf("c07 object #%d", i)
+	default:
+		return genObject(c)
+	}
 }
 
 // genObject draws a host object (0 = nil).
@@ -680,3 +778,13 @@ func footprint(root interface{}) int64 {
 }
 
 func joinTrace(t []string) string { return strings.Join(t, ";") }
+
+// childCommand is exec.Command for a process that must not outlive this
+// worker: the kernel kills it when the worker goes (a worker that the
+// watchdog or the coordinator removes would otherwise leave a spinning driver
+// behind, which then slows every later check down).
+func childCommand(name string, args ...string) *exec.Cmd {
+	cmd := exec.Command(name, args...)
+	cmd.SysProcAttr = &syscall.SysProcAttr{Pdeathsig: syscall.SIGKILL}
+	return cmd
+}
